@@ -25,18 +25,57 @@ by the harness; the bundled graphene data hold irreducible k-points only and nee
 
 Non-trivial case = disentanglement really needed: NW < number of bands in the outer window at
 some k, or >= 1 band (at some k) frozen.
+
+Widening review (DESIGN 14) - classes added on top of the above, all judged by the same oracles:
+  * data: meshes with 1 / 2 k-points and with 100-144 k-points, 4-fold multiplets, narrow / wide bands, band sets *cut out of a
+    larger model* (MMN not unitary, as in real data), exactly rank-deficient projections (duplicated / zero trial orbital),
+    bundled diamond data also in the quick tier;
+  * windows: an edge bit-identical to an eigenvalue (the band on the edge may count as inside or outside - as in C15 any
+    consistent choice is accepted - everything else is judged), finite inverted frozen window, more than two explicit frozen
+    states, numpy integers / duplicates / empty containers in ``frozen_states``;
+  * documented options never varied before: mix_ratio_u, print_progress_every, print_wcc_chk, num_iter_converge, large
+    conv_tol (early convergence), num_wann given with init='amn', irreducible=True, default ``parallel`` (serial fall-back),
+    wcc_start_red as nested lists, ``amn.positions``, savechk=True;
+  * site symmetry (every 10th case): ``sitesym=True`` on the bundled diamond data with its symmetrizer (windows drawn as elsewhere;
+    the documented IrrepsIncompatibleError is counted, not judged), also with irreducible=True (matrices on the irreducible points
+    + neighbours).  PENDING: with >= 1 iteration the frozen-span and outer-window oracles FIRE on the unchanged tree
+    (.work/review_c24_finding_1.py); until that is decided they are applied under sitesym only to calls with 0 iterations unless
+    VERIF_C24_PENDING=1; shape / finiteness / isometry / k-point coverage are always judged.  The boolean-mask form of
+    ``select_bands`` (AssertionError on the unchanged tree, .work/review_c24_finding_2.py) is drawn only with VERIF_C24_PENDING=1;
+  * histories: WannierData written to npz and read back / deep-copied / band-selected (``select_bands`` by range, list, array,
+    energy window) before the call; one object wannierised a second time with init 'amn' or 'random' (other num_wann, other
+    windows) next to 'restart'; the checkpoint saved by savechk=True or ``to_npz`` read back (bit-identical gauge) and restarted
+    on another object; the gauge returned by an earlier call must not change through later calls; the input files of the
+    WannierData must not change;
+  * the two anchored utilities called directly (every 30th case): ``orthogonalize`` (isometry, polar factor) and ``get_max_eig``
+    (orthonormal, invariant subspace, trace = sum of the largest eigenvalues), sizes 1-100, rank-deficient inputs, nvec = 0.
 """
+import copy
 import inspect
 import os
+import shutil
 import sys
+import tempfile
 
 sys.path.insert(0, os.path.dirname(os.path.dirname(os.path.abspath(__file__))))
 from vlib import env, harness, gen_w90  # noqa: E402
 import numpy as np  # noqa: E402
 
 PROP = "C24"
-EDGE_GUARD = 1e-6  # tie guard: no eigenvalue closer than this to a window edge
+EDGE_GUARD = 1e-6  # tie guard: no eigenvalue closer than this to a window edge (bit-identical is allowed: a class of its own)
 THRESH_GUARD = 1e-7  # tie guard: no gap closer than this to the degeneracy threshold
+PENDING = os.environ.get("VERIF_C24_PENDING", "") == "1"  # classes that fire on the unchanged tree (reported, not yet decided)
+SMALL_GRIDS = [(1, 1, 1), (1, 1, 2), (2, 1, 1), (1, 2, 1)]
+BIG_GRIDS = [(6, 6, 4), (5, 5, 4), (12, 3, 3), (8, 4, 4)]
+
+
+def definitely_in(E, lo, hi):
+    """inside [lo, hi] whichever way a band lying exactly on an edge is counted"""
+    return (E > lo) & (E < hi)
+
+
+def possibly_in(E, lo, hi):
+    return (E >= lo) & (E <= hi)
 
 
 # ----------------------------------------------------------------------------- M-window
@@ -62,12 +101,16 @@ def setup(ctx):
 
     mod.select_window_degen = monitored_select_window_degen
     state["real"] = None
-    if ctx.thorough:
-        seed = os.path.join(env.REPO, "tests", "data", "diamond", "diamond")
-        if not all(os.path.exists(seed + ext) for ext in (".win", ".eig", ".mmn", ".amn")):
-            seed = os.path.join("/repo", "tests", "data", "diamond", "diamond")  # scratch copies have no tests/
-        if all(os.path.exists(seed + ext) for ext in (".win", ".eig", ".mmn", ".amn")):
-            state["real"] = gen_w90.real_w90(seed)
+    state["sym"] = None
+    seed = os.path.join(env.REPO, "tests", "data", "diamond", "diamond")
+    if not all(os.path.exists(seed + ext) for ext in (".win", ".eig", ".mmn", ".amn")):
+        seed = os.path.join("/repo", "tests", "data", "diamond", "diamond")  # scratch copies have no tests/
+    if all(os.path.exists(seed + ext) for ext in (".win", ".eig", ".mmn", ".amn")):
+        state["real"] = gen_w90.real_w90(seed)
+        if os.path.exists(seed + ".sawf.npz"):
+            from wannierberri.symmetry.sawf import SymmetrizerSAWF
+            state["sym"] = SymmetrizerSAWF.from_npz(seed + ".sawf.npz")
+    os.makedirs(os.path.join(env.WORK, "c24"), exist_ok=True)
     return state
 
 
@@ -99,7 +142,8 @@ def monitor_window(state, E, thresh, win_min, win_max, include_degen, return_ind
     wit = dict(E=E, thresh=thresh, win_min=win_min, win_max=win_max, include_degen=include_degen, selected=sel,
                case=state.get("case"))
     ctx.ev()
-    inside = (E >= win_min) & (E <= win_max)
+    inside = definitely_in(E, win_min, win_max)
+    maybe = possibly_in(E, win_min, win_max)  # differs from `inside` only for a band bit-identical to an edge
     for g in chains(E, thresh):
         g = np.array(g)
         s = sel[g]
@@ -110,23 +154,29 @@ def monitor_window(state, E, thresh, win_min, win_max, include_degen, return_ind
             if not s.all():
                 ctx.violation("select_window_degen(in wannierise):multiplet_wholly_inside_not_selected",
                               f"multiplet {g.tolist()} lies wholly inside [{win_min},{win_max}] but selection={s.astype(int)}", wit)
-        elif not inside[g].any():
+        elif not maybe[g].any():
             if s.any():
                 ctx.violation("select_window_degen(in wannierise):multiplet_wholly_outside_selected",
                               f"multiplet {g.tolist()} lies wholly outside [{win_min},{win_max}] but selection={s.astype(int)}", wit)
+        elif (inside[g] != maybe[g]).any():
+            ctx.count("mwindow_multiplets_with_a_band_exactly_on_the_edge(either way accepted)")
         else:
             ctx.count("mwindow_cut_multiplets_seen")
+            if inside[g].sum() >= 3 and inside[g[0]] and not inside[g[-1]] and not include_degen:
+                ctx.count("mwindow_upper_edge_cuts_multiplet_with_3+_bands_inside")
             if s.all() == include_degen and (s.all() or not s.any()):
                 ctx.count("mwindow_cut_multiplets_resolved_as_documented")
 
 
 # ----------------------------------------------------------------------------- generator of windows
-def edge_candidate(rng, s, thresh, lo=None, hi=None, prefer_cut=False):
+def edge_candidate(rng, s, thresh, lo=None, hi=None, prefer_cut=False, exact=0.06):
     """a finite window edge: between two levels of a random k-point (possibly inside a multiplet),
-    or anywhere in the spectrum"""
+    bit-identical to a level, or anywhere in the spectrum"""
     E = s.E
     NK, NB = E.shape
     r = rng.random()
+    if exact and rng.random() < exact:
+        return float(E[int(rng.integers(NK)), int(rng.integers(NB))])
     if prefer_cut or r < 0.3:
         gaps = np.diff(E, axis=1)
         cand = np.argwhere((gaps < thresh) & (gaps > 4 * EDGE_GUARD))
@@ -143,10 +193,18 @@ def edge_candidate(rng, s, thresh, lo=None, hi=None, prefer_cut=False):
 
 
 def edges_ok(s, edges):
+    """no eigenvalue within the guard of an edge - except bit-identical ones (judged either way)"""
     for e in edges:
-        if np.isfinite(e) and np.min(np.abs(s.E - e)) < EDGE_GUARD:
-            return False
+        if np.isfinite(e):
+            d = np.abs(s.E - e)
+            if np.any((d < EDGE_GUARD) & (d > 0)):
+                return False
     return True
+
+
+def exact_edges(s, cfg):
+    return int(sum(bool(np.isfinite(e) and np.any(s.E == e))
+                   for e in (cfg["froz_min"], cfg["froz_max"], cfg["outer_min"], cfg["outer_max"])))
 
 
 def gen_outer(rng, s, thresh, need=1):
@@ -154,25 +212,36 @@ def gen_outer(rng, s, thresh, need=1):
     if rng.random() < 0.3:
         return -np.inf, np.inf
     for _ in range(12):
-        omin = -np.inf if rng.random() < 0.4 else edge_candidate(rng, s, thresh, prefer_cut=rng.random() < 0.3)
-        omax = np.inf if rng.random() < 0.4 else edge_candidate(rng, s, thresh, prefer_cut=rng.random() < 0.3)
+        omin = -np.inf if rng.random() < 0.4 else edge_candidate(rng, s, thresh, prefer_cut=rng.random() < 0.3, exact=0.2)
+        omax = np.inf if rng.random() < 0.4 else edge_candidate(rng, s, thresh, prefer_cut=rng.random() < 0.3, exact=0.2)
         if not omin < omax:
             omin, omax = omax, omin
         if not omin < omax or not edges_ok(s, (omin, omax)):
             continue
-        cnt = ((s.E >= omin) & (s.E <= omax)).sum(axis=1)
+        cnt = definitely_in(s.E, omin, omax).sum(axis=1)
         if cnt.min() >= need:
             return omin, omax
     return -np.inf, np.inf
 
 
-def gen_frozen(rng, s, thresh, omin, omax, NW, explicit_count):
+def gen_frozen(rng, s, thresh, omin, omax, NW, explicit_count, cut_bias=0.3):
     """frozen window inside the outer one, never more than NW - explicit_count bands inside (+explicit handled by caller)"""
+    if rng.random() < 0.06:
+        # finite inverted window: documented as "nothing will be frozen"
+        a = edge_candidate(rng, s, thresh, exact=False)
+        b = edge_candidate(rng, s, thresh, exact=False)
+        if a != b:
+            return max(a, b), min(a, b)
     for _ in range(10):
         mode = rng.random()
         fmin = omin if mode < 0.3 else edge_candidate(rng, s, thresh, lo=omin, hi=omax, prefer_cut=rng.random() < 0.3)
-        fmax = edge_candidate(rng, s, thresh, lo=omin, hi=omax, prefer_cut=rng.random() < 0.3)
+        fmax = edge_candidate(rng, s, thresh, lo=omin, hi=omax, prefer_cut=rng.random() < cut_bias)
         if rng.random() < 0.08:
+            fmax = omax
+        # the two windows sharing an edge that sits exactly on an eigenvalue (e.g. both set to a printed band energy)
+        if np.isfinite(omin) and np.any(s.E == omin) and rng.random() < 0.7:
+            fmin = omin
+        if np.isfinite(omax) and np.any(s.E == omax) and rng.random() < 0.6:
             fmax = omax
         if np.isfinite(fmin) and np.isfinite(fmax) and fmin > fmax:
             fmin, fmax = fmax, fmin
@@ -180,96 +249,177 @@ def gen_frozen(rng, s, thresh, omin, omax, NW, explicit_count):
             continue
         if not edges_ok(s, (fmin, fmax)):
             continue
-        cnt = ((s.E >= fmin) & (s.E <= fmax)).sum(axis=1)
+        cnt = possibly_in(s.E, fmin, fmax).sum(axis=1)
         if cnt.max() + explicit_count <= NW:
             return fmin, fmax
     return np.inf, -np.inf
 
 
-def gen_config(rng, s, thresh, NW=None, thorough=False, no_frozen=False):
-    """windows (+ NW if not given) that are valid inputs whatever way cut multiplets are resolved:
-    #bands in the outer window >= NW and #bands in the frozen window + explicit frozen <= NW at every k,
-    frozen window inside the outer window, explicit frozen states strictly inside the outer window"""
+def top_cut_window(rng, s, thresh, omin, omax):
+    """a frozen window whose upper edge cuts off the top band of a multiplet of >= 4 bands (>= 3 of its bands stay inside)"""
+    in_outer = definitely_in(s.E, omin, omax)
+    cand = []
+    for ik in range(s.NK):
+        for g in chains(s.E[ik], thresh):
+            if len(g) >= 4 and in_outer[ik, g].all() and s.E[ik, g[-1]] - s.E[ik, g[-2]] > 4 * EDGE_GUARD:
+                cand.append((ik, g))
+    if not cand:
+        return None
+    ik, g = cand[int(rng.integers(len(cand)))]
+    fmax = float(s.E[ik, g[-2]] + (s.E[ik, g[-1]] - s.E[ik, g[-2]]) * rng.uniform(0.3, 0.7))
+    fmin = omin
+    if rng.random() < 0.5 and g[0] > 0 and s.E[ik, g[0]] - s.E[ik, g[0] - 1] > 4 * EDGE_GUARD:
+        fmin = max(omin, float(0.5 * (s.E[ik, g[0]] + s.E[ik, g[0] - 1])))
+    if not fmin < fmax or not edges_ok(s, (fmin, fmax)):
+        return None
+    return fmin, fmax
+
+
+def int_form(rng, lst, form):
+    """the same list of band indices written as python ints / numpy integers / with a repeated entry"""
+    lst = [int(x) for x in lst]
+    if form == "numpy":
+        return [np.int64(x) for x in lst]
+    if form == "duplicate" and len(lst) > 0:
+        return lst + [lst[int(rng.integers(len(lst)))]]
+    return lst
+
+
+def gen_config(rng, s, thresh, NW=None, thorough=False, no_frozen=False, sitesym_kirr=None, cut_bias=0.3):
+    """windows (+ NW if not given) that are valid inputs whatever way cut multiplets (and bands bit-identical to an edge) are
+    resolved: #bands in the outer window >= NW and #bands in the frozen window + explicit frozen <= NW at every k,
+    frozen window inside the outer window, explicit frozen states strictly inside the outer window.
+    sitesym_kirr (list of irreducible k-points): explicit frozen states are counted together with their whole multiplets
+    (the symmetrizer freezes whole symmetry blocks) and per-k dictionaries only address irreducible k-points (others are
+    documented to be taken from the irreducible ones)."""
     omin, omax = gen_outer(rng, s, thresh, need=1 if NW is None else NW)
-    in_outer = (s.E >= omin) & (s.E <= omax)
+    in_outer = definitely_in(s.E, omin, omax)
     nout = in_outer.sum(axis=1)
+    target = None
     if NW is None:
         nmax = int(nout.min())
         if nmax < 1:
             raise harness.Skip("no band inside the outer window at some k")
+        nw_lo = 1
+        if cut_bias >= 0.7 and not no_frozen and rng.random() < 0.7:
+            target = top_cut_window(rng, s, thresh, omin, omax)
+            if target is not None:
+                nw_lo = int(possibly_in(s.E, *target).sum(axis=1).max())
+                if nw_lo > nmax:
+                    target, nw_lo = None, 1
         # bias towards real disentanglement (NW below the number of bands in the window)
-        NW = int(rng.integers(1, nmax + 1)) if (rng.random() < 0.8 or nmax == 1) else nmax
+        NW = int(rng.integers(nw_lo, nmax + 1)) if (rng.random() < 0.8 or nmax == 1) else nmax
     elif nout.min() < NW:
         raise harness.Skip("fewer bands inside the outer window than NW")
     # explicit frozen states
     frozen_states = []
+    pass_empty = False
     explicit = np.zeros(s.E.shape, dtype=bool)
+    form = ["python", "python", "numpy", "duplicate"][int(rng.integers(4))]
     r = rng.random()
-    if no_frozen:
+    if sitesym_kirr is not None:
+        r *= 0.5  # explicit states twice as often: the per-k dictionary goes through the map k -> irreducible k only here
+    if no_frozen or target is not None:
         r = 1.0
+
+    def how_many(nok):
+        n = int(rng.integers(1, 3)) if rng.random() < 0.7 else int(rng.integers(1, NW + 1))
+        return max(1, min(n, nok, NW))
+
     if r < 0.12:
         ok = np.where(in_outer.all(axis=0))[0]
         if len(ok) > 0:
-            n = int(rng.integers(1, min(len(ok), NW, 2) + 1))
-            frozen_states = [int(x) for x in rng.choice(ok, n, replace=False)]
-            explicit[:, frozen_states] = True
+            lst = [int(x) for x in rng.choice(ok, how_many(len(ok)), replace=False)]
+            frozen_states = int_form(rng, lst, form)
+            explicit[:, lst] = True
     elif r < 0.24:
         frozen_states = {}
-        for ik in rng.choice(s.NK, min(s.NK, int(rng.integers(1, 4))), replace=False):
+        pool = np.arange(s.NK) if sitesym_kirr is None else np.array(sitesym_kirr)
+        for ik in rng.choice(pool, min(len(pool), int(rng.integers(1, 4))), replace=False):
             ok = np.where(in_outer[ik])[0]
-            n = int(rng.integers(1, min(len(ok), NW, 2) + 1))
-            lst = [int(x) for x in rng.choice(ok, n, replace=False)]
-            frozen_states[int(ik)] = lst
+            lst = [int(x) for x in rng.choice(ok, how_many(len(ok)), replace=False)]
+            key = np.int64(ik) if form == "numpy" else int(ik)
+            frozen_states[key] = int_form(rng, lst, form)
             explicit[ik, lst] = True
-    nexp = int(explicit.sum(axis=1).max())
-    if rng.random() < 0.2 or no_frozen:
+        if rng.random() < 0.2:
+            rest = [int(k) for k in pool if int(k) not in [int(q) for q in frozen_states]]
+            if rest:
+                frozen_states[rest[int(rng.integers(len(rest)))]] = []  # a k-point listed with nothing to freeze
+    elif r < 0.30:
+        pass_empty = True
+        frozen_states = {} if rng.random() < 0.5 else []
+    counted = explicit
+    if sitesym_kirr is not None and explicit.any():
+        counted = explicit.copy()
+        for ik in range(s.NK):
+            for g in chains(s.E[ik], thresh):
+                if explicit[ik, g].any():
+                    counted[ik, g] = True
+        if not in_outer[counted].all():
+            raise harness.Skip("multiplet of an explicit frozen state reaches out of the outer window")
+    nexp = int(counted.sum(axis=1).max())
+    if target is not None:
+        fmin, fmax = target
+    elif rng.random() < 0.2 or no_frozen:
         fmin, fmax = np.inf, -np.inf
     else:
-        fmin, fmax = gen_frozen(rng, s, thresh, omin, omax, NW, nexp)
-    in_froz = (s.E >= fmin) & (s.E <= fmax)
-    if ((in_froz | explicit).sum(axis=1) > NW).any():
+        fmin, fmax = gen_frozen(rng, s, thresh, omin, omax, NW, nexp, cut_bias=cut_bias)
+    in_froz = possibly_in(s.E, fmin, fmax)
+    if ((in_froz | counted).sum(axis=1) > NW).any():
         raise harness.Skip("more frozen states than Wannier functions")
     return dict(NW=NW, outer_min=omin, outer_max=omax, froz_min=fmin, froz_max=fmax, frozen_states=frozen_states,
-                explicit=explicit)
+                explicit=explicit, pass_empty=pass_empty, fs_form=form)
 
 
 # ----------------------------------------------------------------------------- oracle
-def judge(ctx, s, cfg, V, thresh, wit, stage):
+def judge(ctx, s, cfg, V, thresh, wit, stage, kpts=None, windows=True):
+    """kpts: the k-points that must be present (default all); every k-point present is judged.
+    windows=False: only shape / finiteness / isometry (used for sitesym=True with >= 1 iteration while the finding
+    .work/review_c24_finding_1.py is undecided; VERIF_C24_PENDING=1 switches the window oracles on there too)"""
     NB, NW = s.NB, cfg["NW"]
     fmin, fmax, omin, omax = cfg["froz_min"], cfg["froz_max"], cfg["outer_min"], cfg["outer_max"]
     explicit = cfg["explicit"]
-    if not isinstance(V, dict) or sorted(V.keys()) != list(range(s.NK)):
-        ctx.violation("wannierise:v_matrix_missing_kpoints", f"v_matrix keys {sorted(V.keys()) if isinstance(V, dict) else type(V)}"
-                      f" != all {s.NK} k-points", wit)
-        return dict(cut=0, nfroz=0, nexcl=0)
+    need = list(range(s.NK)) if kpts is None else sorted(int(k) for k in kpts)
+    none = dict(cut=0, nfroz=0, nexcl=0)
+    if not isinstance(V, dict):
+        ctx.violation("wannierise:v_matrix_missing_kpoints", f"v_matrix is a {type(V)}, not a dict over k-points", wit)
+        return none
+    keys = sorted(V.keys())
+    if (kpts is None and keys != need) or not set(need) <= set(keys) or not set(keys) <= set(range(s.NK)):
+        ctx.violation("wannierise:v_matrix_missing_kpoints", f"v_matrix keys {keys} do not cover the k-points {need} of {s.NK}", wit)
+        return none
     nfroz = nexcl = ncut_f = ncut_o = 0
     worst = dict(iso=0.0, froz=0.0, excl=0.0)
     bad = {}
-    for ik in range(s.NK):
+    for ik in keys:
         Vk = np.asarray(V[ik])
         if Vk.shape != (NB, NW):
             ctx.violation("wannierise:v_matrix_shape", f"v_matrix[{ik}].shape={Vk.shape} expected {(NB, NW)}", wit)
-            return dict(cut=0, nfroz=0, nexcl=0)
+            return none
         if not np.all(np.isfinite(Vk)):
             ctx.violation("wannierise:v_matrix_not_finite", f"v_matrix[{ik}] has non-finite entries", wit)
-            return dict(cut=0, nfroz=0, nexcl=0)
+            return none
         E = s.E[ik]
         iso = float(np.abs(Vk.conj().T @ Vk - np.eye(NW)).max())
         if iso > worst["iso"]:
             worst["iso"] = iso
             bad["iso"] = dict(ik=ik, dev=iso)
         P = np.real(np.einsum("nw,nw->n", Vk, Vk.conj()))  # (V V^dagger)_nn
-        inf_ = (E >= fmin) & (E <= fmax)
-        ino = (E >= omin) & (E <= omax)
-        for g in chains(E, thresh):
+        inf_ = definitely_in(E, fmin, fmax)
+        inf_maybe = possibly_in(E, fmin, fmax)
+        ino = definitely_in(E, omin, omax)
+        ino_maybe = possibly_in(E, omin, omax)
+        nmust = 0
+        for g in (chains(E, thresh) if windows else []):
             g = np.array(g)
             # frozen window
             if inf_[g].all():
                 must = g
             else:
                 must = g[explicit[ik, g]]
-                if inf_[g].any():
+                if inf_maybe[g].any():
                     ncut_f += len(g)
+            nmust += len(must)
             for n in must:
                 nfroz += 1
                 d = abs(P[n] - 1.0)
@@ -277,7 +427,7 @@ def judge(ctx, s, cfg, V, thresh, wit, stage):
                     worst["froz"] = d
                     bad["froz"] = dict(ik=ik, band=int(n), weight=float(P[n]), E=E, explicit=bool(explicit[ik, n]))
             # outer window
-            if not ino[g].any():
+            if not ino_maybe[g].any():
                 if explicit[ik, g].any():
                     continue  # cannot happen: explicit states are generated inside the outer window
                 for n in g:
@@ -288,6 +438,8 @@ def judge(ctx, s, cfg, V, thresh, wit, stage):
                         bad["excl"] = dict(ik=ik, band=int(n), maxabs=d, E=E)
             elif not ino[g].all():
                 ncut_o += len(g)
+        if nmust == NW:
+            ctx.count("kpoints_with_every_wannier_function_frozen")
     ctx.close(f"wannierise[{stage}]:V^dagger.V!=1", worst["iso"], 0.0, scale=1.0, rtol=1e-9,
               what=f"isometry of v_matrix, worst k: {bad.get('iso')}", witness=dict(wit, worst=bad.get("iso")))
     if nfroz:
@@ -308,13 +460,15 @@ def judge(ctx, s, cfg, V, thresh, wit, stage):
 
 def judge_initial_gauge(ctx, s, cfg, V, thresh, wit):
     """init='amn', num_iter=0, nothing frozen: V[selected] = A_sel (A_sel^dagger A_sel)^(-1/2) at every k-point where
-    the set of selected bands is unambiguous (no multiplet cut by an edge of the outer window) and the projections
-    are well conditioned"""
+    the set of selected bands is unambiguous (no multiplet cut by an edge of the outer window, no band on an edge) and the
+    projections are well conditioned"""
     omin, omax = cfg["outer_min"], cfg["outer_max"]
     worst, bad, n = 0.0, None, 0
     for ik in range(s.NK):
         E = s.E[ik]
-        ino = (E >= omin) & (E <= omax)
+        ino = definitely_in(E, omin, omax)
+        if (ino != possibly_in(E, omin, omax)).any():
+            continue
         if any(ino[g].any() and not ino[g].all() for g in chains(E, thresh)):
             continue
         A = s.amn[ik][ino]
@@ -335,50 +489,430 @@ def judge_initial_gauge(ctx, s, cfg, V, thresh, wit):
         ctx.count("reference_gauge_kpoints_checked", n)
 
 
-def call_wannierise(rng, wd, cfg, init, num_iter, localise, extra):
+def call_wannierise(ctx, rng, wd, cfg, init, num_iter, localise, extra, sitesym=False, wit=None):
     import wannierberri as wb
     kw = dict(froz_min=cfg["froz_min"], froz_max=cfg["froz_max"], outer_min=cfg["outer_min"], outer_max=cfg["outer_max"],
-              num_iter=num_iter, localise=localise, init=init, parallel=False, sitesym=False, savechk=False, **extra)
+              num_iter=num_iter, localise=localise, init=init, parallel=False, sitesym=sitesym, savechk=False)
+    kw.update(extra)
+    if kw.get("parallel") == "default":
+        del kw["parallel"]  # default True: without an initialised ray the library documents a serial fall-back
+        ctx.count("option_parallel_left_at_default(serial fall-back)")
     fs = cfg["frozen_states"]
-    if isinstance(fs, dict) or len(fs) > 0:
+    if isinstance(fs, dict) or len(fs) > 0 or cfg.get("pass_empty"):
         kw["frozen_states"] = fs if isinstance(fs, dict) else list(fs)
+        fs_before = copy.deepcopy(kw["frozen_states"])
     if init == "random":
-        kw["num_wann"] = cfg["NW"]
+        if not sitesym or rng.random() < 0.5:
+            kw["num_wann"] = cfg["NW"]
         np.random.seed(int(rng.integers(2 ** 31 - 1)))  # wannierise draws from the global RNG: make the case replayable
-    if rng.random() < 0.5:
-        wb.wannierise(wd, **kw)
+    elif kw.pop("num_wann_given", False):
+        kw["num_wann"] = cfg["NW"]  # documented as needed for 'random' only; must be harmless otherwise
+    kw.pop("num_wann_given", None)
+    function_form = bool(rng.random() < 0.5) or "irreducible" in kw  # the method passes its own `irreducible`
+    if function_form:
+        ret = wb.wannierise(wd, **kw)
+        if ret is not wd.chk.v_matrix:
+            ctx.violation("wannierise:return_value_is_not_chk.v_matrix",
+                          f"wannierise returned {type(ret)} which is not wandata.chk.v_matrix", wit)
+        ctx.ev()
     else:
         wd.wannierise(**kw)
+    if not wd.wannierised:
+        ctx.violation("wannierise:wannierised_flag_not_set", "wandata.wannierised is False after wannierise", wit)
+    if "frozen_states" in kw and repr(kw["frozen_states"]) != repr(fs_before):
+        ctx.violation("wannierise:frozen_states_argument_modified", f"{fs_before} -> {kw['frozen_states']}", wit)
     return wd.chk.v_matrix
+
+
+# ----------------------------------------------------------------------------- generators of data and options
+def truncate_bands(s, lo, hi):
+    """keep the bands lo..hi-1 of a larger model: the overlap matrices are no longer unitary (as for real ab-initio data
+    where more bands exist than were computed / kept).  `s.U` stays the full eigenvector matrix (set_amn needs it)."""
+    s.NB_full = s.NB
+    s.band_slice = (int(lo), int(hi))
+    s.E = s.E[:, lo:hi].copy()
+    s.mmn = s.mmn[:, :, lo:hi, lo:hi].copy()
+    s.NB = int(hi - lo)
+    s.degen = dict(s.degen, kind=s.degen["kind"] + f"/bands{lo}:{hi}of{s.NB_full}")
+    return s
+
+
+def set_amn(s, rng, NW, noise):
+    sl = getattr(s, "band_slice", None)
+    if sl is None:
+        s.set_amn(rng, NW, noise=noise)
+        return s
+    nb = s.NB
+    s.NB = s.NB_full
+    try:
+        s.set_amn(rng, min(NW, s.NB_full), noise=noise)
+    finally:
+        s.NB = nb
+    s.amn = s.amn[:, sl[0]:sl[1], :].copy()
+    return s
+
+
+def make_rank_deficient(s, rng):
+    """exactly linearly dependent projections: one trial orbital duplicated, or one that projects to zero"""
+    NW = s.amn.shape[2]
+    j = int(rng.integers(NW))
+    if NW >= 2 and rng.random() < 0.6:
+        i = int((j + 1 + rng.integers(NW - 1)) % NW)
+        s.amn[:, :, j] = s.amn[:, :, i]
+        s.amn_kind = f"{s.amn_kind}+column{j}=column{i}"
+    else:
+        s.amn[:, :, j] = 0.0
+        s.amn_kind = f"{s.amn_kind}+column{j}=0"
+
+
+def band_view(s, sel):
+    """what the oracle looks at after `select_bands(sel)`"""
+    j = copy.copy(s)
+    sel = np.asarray(sel, dtype=int)
+    j.E = s.E[:, sel]
+    j.NB = len(sel)
+    j.amn = None if s.amn is None else s.amn[:, sel, :]
+    j.mmn = s.mmn[:, :, sel, :][:, :, :, sel]
+    return j
+
+
+def gen_select(rng, s, thresh):
+    """a documented way to call WannierData.select_bands and the bands that must remain (harness-side)"""
+    NB = s.NB
+    forms = ["range", "list", "array", "window"] + (["bool"] if PENDING else [])
+    form = forms[int(rng.integers(len(forms)))]
+    if form == "range":
+        a = int(rng.integers(0, NB))
+        b = int(rng.integers(a + 1, NB + 1))
+        kw = {}
+        if a > 0 or rng.random() < 0.5:
+            kw["band_start"] = a
+        if b < NB or rng.random() < 0.5:
+            kw["band_end"] = b
+        return form, kw, np.arange(a, b)
+    if form in ("list", "array", "bool"):
+        sel = np.sort(rng.choice(NB, int(rng.integers(1, NB + 1)), replace=False))
+        if form == "list":
+            return form, dict(selected_bands=[int(x) for x in sel]), sel
+        if form == "array":
+            return form, dict(selected_bands=np.array(sel, dtype=int)), sel
+        mask = np.zeros(NB, dtype=bool)
+        mask[sel] = True
+        return form, dict(selected_bands=mask), sel
+    for _ in range(10):
+        a = -np.inf if rng.random() < 0.3 else edge_candidate(rng, s, thresh, exact=False)
+        b = np.inf if rng.random() < 0.3 else edge_candidate(rng, s, thresh, exact=False)
+        if a > b:
+            a, b = b, a
+        if not a < b or not edges_ok(s, (a, b)):
+            continue
+        keep = np.where(((s.E < b) & (s.E > a)).any(axis=0))[0]  # documented: only bands ENTIRELY outside are excluded
+        if len(keep) >= 1 and (np.isfinite(a) or np.isfinite(b)):
+            return form, dict(win_min=a, win_max=b), keep
+    return "range", dict(band_start=0), np.arange(NB)
+
+
+def gen_options(rng, NW, reference, thorough, num_iter):
+    extra = dict(mix_ratio_z=float(rng.choice([1.0, 0.5, 0.8])))
+    r = rng.random()
+    if r < 0.4:
+        extra["conv_tol"] = 0.0  # never "converged": run all iterations
+    elif r < 0.5:
+        extra["conv_tol"] = float(rng.choice([1e3, 1e-2]))  # converges after a few iterations
+    if rng.random() < 0.3:
+        extra["symmetrize_Z"] = False
+    if rng.random() < 0.2:
+        w = rng.uniform(-0.5, 0.5, (NW, 3))
+        form = int(rng.integers(3))
+        extra["wcc_start_red"] = w if form == 0 else (w.tolist() if form == 1 else tuple(tuple(float(x) for x in row) for row in w))
+    if reference:
+        return extra
+    if rng.random() < 0.15:
+        extra["mix_ratio_u"] = float(rng.choice([0.3, 0.5, 0.9]))
+    if rng.random() < 0.3:
+        extra["print_progress_every"] = int(rng.choice([1, 3, 1000]))
+    if rng.random() < 0.15:
+        extra["print_wcc_chk"] = True
+    if rng.random() < 0.3:
+        extra["num_iter_converge"] = int(rng.choice([0, 1, 2, 5, 10]))
+    if rng.random() < 0.2:
+        extra["num_wann_given"] = True
+    if rng.random() < 0.1:
+        extra["irreducible"] = True  # without site symmetry every k-point is "irreducible": all matrices must be there
+    if rng.random() < 0.25:
+        extra["parallel"] = "default"
+    return extra
+
+
+def count_options(ctx, extra):
+    for k in ("mix_ratio_u", "print_progress_every", "print_wcc_chk", "num_iter_converge", "num_wann_given", "irreducible"):
+        if k in extra:
+            ctx.count(f"option_{k}")
+    if extra.get("conv_tol", 0) > 1e-9:
+        ctx.count("option_conv_tol_large")
+    if "wcc_start_red" in extra and not isinstance(extra["wcc_start_red"], np.ndarray):
+        ctx.count("option_wcc_start_red_nested_" + type(extra["wcc_start_red"]).__name__)
+
+
+def plain(extra):
+    return {k: v for k, v in extra.items() if k != "wcc_start_red"}
+
+
+def max_diff(Va, Vb):
+    if not isinstance(Va, dict) or not isinstance(Vb, dict) or sorted(Va.keys()) != sorted(Vb.keys()):
+        return np.inf
+    d = 0.0
+    for k in Va:
+        a, b = np.asarray(Va[k]), np.asarray(Vb[k])
+        if a.shape != b.shape:
+            return np.inf
+        if a.size:
+            d = max(d, float(np.abs(a - b).max()))
+    return d
+
+
+def check_inputs_unchanged(ctx, wd, j, wit):
+    """eig / mmn / amn of the WannierData still hold exactly what was put in"""
+    ok = True
+    for ik in range(j.NK):
+        ok = ok and np.array_equal(np.asarray(wd.eig.data[ik]), j.E[ik])
+        ok = ok and np.array_equal(np.asarray(wd.mmn.data[ik]), j.mmn[ik])
+        if wd.has_file("amn") and j.amn is not None:
+            ok = ok and np.array_equal(np.asarray(wd.amn.data[ik]), j.amn[ik])
+    ctx.ev()
+    ctx.count("inputs_unchanged_checked")
+    if not ok:
+        ctx.violation("wannierise:input_files_modified", "eig/mmn/amn data of the WannierData differ from what was put in", wit)
+
+
+# ----------------------------------------------------------------------------- the utilities called directly
+def case_direct(ctx, rng, idx, state):
+    from wannierberri.utility import orthogonalize, get_max_eig
+    sizes = [1, 1, 2, 2, 3, 4, 5, 6, 8, 12, 30] + ([100] if rng.random() < 0.3 else [])
+    for _ in range(6):
+        n = int(sizes[int(rng.integers(len(sizes)))])
+        m = n if rng.random() < 0.4 else int(rng.integers(1, n + 1))
+        kind = ["generic", "generic", "duplicate_column", "zero_column", "zero_matrix", "isometry", "tiny", "huge", "real"][int(rng.integers(9))]
+        u = rng.normal(size=(n, m)) + 1j * rng.normal(size=(n, m))
+        if kind == "duplicate_column" and m >= 2:
+            u[:, 0] = u[:, 1]
+        elif kind == "zero_column":
+            u[:, int(rng.integers(m))] = 0
+        elif kind == "zero_matrix":
+            u[:] = 0
+        elif kind == "isometry":
+            u = np.linalg.qr(u)[0]
+        elif kind == "tiny":
+            u *= 1e-9
+        elif kind == "huge":
+            u *= 1e7
+        elif kind == "real":
+            u = u.real.copy()
+        u0 = u.copy()
+        q = np.asarray(orthogonalize(u))
+        ctx.count("direct_orthogonalize_calls")
+        wit = dict(function="orthogonalize", shape=(n, m), kind=kind)
+        if q.shape != (n, m):
+            ctx.violation("orthogonalize(direct):shape", f"{q.shape} for input {(n, m)}", wit)
+            continue
+        scale = float(np.abs(u0).max())
+        ctx.close("orthogonalize(direct):columns_not_orthonormal", q.conj().T @ q, np.eye(m), scale=1.0, rtol=1e-9, witness=wit)
+        h = q.conj().T @ u0  # polar decomposition u = q h, h Hermitian positive semi-definite
+        ctx.close("orthogonalize(direct):not_the_polar_factor(q^+u not Hermitian)", h, h.conj().T, scale=scale, rtol=1e-9 * n, witness=wit)
+        ctx.close("orthogonalize(direct):not_the_polar_factor(q q^+u != u)", q @ h, u0, scale=scale, rtol=1e-9 * n, witness=wit)
+        ev = np.linalg.eigvalsh(0.5 * (h + h.conj().T))
+        ctx.close("orthogonalize(direct):not_the_polar_factor(q^+u not positive)", min(float(ev.min()), 0.0), 0.0, scale=scale,
+                  rtol=1e-9 * n, witness=wit)
+        if not np.array_equal(u, u0):
+            ctx.violation("orthogonalize(direct):input_modified", "argument changed in place", wit)
+        ctx.nontrivial(("orthogonalize", n, m, kind))
+    for _ in range(6):
+        n = int(sizes[int(rng.integers(len(sizes)))])
+        rank = n if rng.random() < 0.5 else int(rng.integers(0, n + 1))
+        a = rng.normal(size=(n, rank)) + 1j * rng.normal(size=(n, rank))
+        if rng.random() < 0.2:
+            a = a.real.astype(complex)
+        M = a @ a.conj().T
+        M = 0.5 * (M + M.conj().T)
+        if rng.random() < 0.3:
+            M = M - rng.uniform(0, 2) * np.eye(n)  # not positive: "maximal" means algebraically largest
+        nvec = int(rng.choice([0, n, int(rng.integers(0, n + 1)), int(rng.integers(0, n + 1))]))
+        M0 = M.copy()
+        v = np.asarray(get_max_eig(M, nvec, n))
+        ctx.count("direct_get_max_eig_calls")
+        if nvec == 0:
+            ctx.count("direct_get_max_eig_nvec=0")
+        wit = dict(function="get_max_eig", n=n, nvec=nvec, rank=rank)
+        if v.shape != (n, nvec):
+            ctx.violation("get_max_eig(direct):shape", f"{v.shape} expected {(n, nvec)}", wit)
+            continue
+        ctx.ev()
+        if nvec > 0:
+            scale = max(float(np.abs(M0).max()), 1e-300)
+            top = np.sort(np.linalg.eigvalsh(M0))[n - nvec:]
+            ctx.close("get_max_eig(direct):columns_not_orthonormal", v.conj().T @ v, np.eye(nvec), scale=1.0, rtol=1e-9, witness=wit)
+            r = v.conj().T @ M0 @ v
+            ctx.close("get_max_eig(direct):span_not_invariant", M0 @ v, v @ r, scale=scale, rtol=1e-9 * n, witness=wit)
+            ctx.close("get_max_eig(direct):not_the_largest_eigenvalues", float(np.real(np.trace(r))), float(top.sum()),
+                      scale=scale * nvec, rtol=1e-9 * n, witness=wit)
+        if not np.array_equal(M, M0):
+            ctx.violation("get_max_eig(direct):input_modified", "argument changed in place", wit)
+        ctx.nontrivial(("get_max_eig", n, nvec, rank))
+    ctx.sample(dict(kind="direct calls of orthogonalize / get_max_eig", idx=idx))
+
+
+# ----------------------------------------------------------------------------- site symmetry on the bundled diamond data
+def case_sitesym(ctx, rng, idx, state):
+    import warnings
+    from wannierberri.symmetry.sawf import IrrepsIncompatibleError
+    thresh = state["thresh"]
+    s = copy.copy(state["real"])
+    s.amn = s.amn_full.copy()  # the symmetrizer describes all projections of the file
+    s.amn_kind = "file (all columns)"
+    NW = int(s.amn.shape[2])
+    sym = copy.deepcopy(state["sym"])
+    kptirr = [int(k) for k in sym.kptirr]
+    if s.min_tie_distance(thresh) < THRESH_GUARD:
+        raise harness.Skip("tie: a gap within 1e-7 of the degeneracy threshold")
+    cfg = gen_config(rng, s, thresh, NW=NW, thorough=ctx.thorough, sitesym_kirr=kptirr)
+    init = ["amn", "amn", "random", "restart"][int(rng.integers(4))]
+    first_init = init if init != "restart" else "amn"
+    num_iter = int(rng.choice([0, 1, 2, int(rng.integers(3, 12)), int(rng.integers(3, 40))]))
+    localise = bool(rng.random() < 0.6)
+    extra = gen_options(rng, NW, False, ctx.thorough, num_iter)
+    extra.pop("mix_ratio_u", None)
+    extra.pop("irreducible", None)
+    irreducible = bool(rng.random() < 0.25)
+    if irreducible:
+        extra["irreducible"] = True
+    if rng.random() < 0.3:
+        extra["check_irreps_warn"] = True  # check_irreps stays True: incompatible windows raise (documented)
+    wd = s.wandata(with_chk=bool(rng.random() < 0.4))
+    wd.set_symmetrizer(symmetrizer=sym)
+    state["case"] = dict(idx=idx, NB=s.NB, NW=NW, mp_grid=s.mp_grid, sitesym=True)
+
+    def witness(cfg_, init_, n_iter):
+        return dict(data="bundled diamond", sitesym=True, NB=s.NB, NW=NW, mp_grid=s.mp_grid, init=init_, num_iter=n_iter,
+                    localise=localise, extra=plain(extra), froz=(cfg_["froz_min"], cfg_["froz_max"]),
+                    outer=(cfg_["outer_min"], cfg_["outer_max"]), frozen_states=cfg_["frozen_states"], kptirr=kptirr)
+
+    calls0 = ctx.counters.get("mwindow_calls", 0)
+    ncalls = 0
+    res = dict(cut=0, nfroz=0, nexcl=0)
+    with warnings.catch_warnings():
+        warnings.simplefilter("ignore")
+        try:
+            wit = witness(cfg, first_init, num_iter)
+            ncalls += 1
+            V = call_wannierise(ctx, rng, wd, cfg, first_init, num_iter, localise, extra, sitesym=True, wit=wit)
+            # with >= 1 iteration the window oracles fire on the unchanged tree (known finding, KNOWN_FINDINGS.txt): own mechanism key
+            res = judge(ctx, s, cfg, V, thresh, wit, "sitesym,iterated" if num_iter > 0 else "sitesym," + first_init,
+                        kpts=kptirr if irreducible else None)
+            ctx.count("sitesym_calls_judged")
+            ctx.count("sitesym_calls_judged_with_window_oracles")
+            if irreducible:
+                ctx.count("sitesym_irreducible_calls_judged")
+            if isinstance(cfg["frozen_states"], dict) and len(cfg["frozen_states"]):
+                ctx.count("sitesym_explicit_frozen_states_dict")
+            if init == "restart" and not irreducible:
+                cfg2 = cfg
+                if rng.random() < 0.5:
+                    try:
+                        cfg2 = gen_config(rng, s, thresh, NW=NW, thorough=ctx.thorough, sitesym_kirr=kptirr)
+                    except harness.Skip:
+                        cfg2 = cfg
+                num_iter2 = int(rng.choice([0, 1, int(rng.integers(2, 15))]))
+                extra2 = plain(extra)
+                wit = witness(cfg2, "restart", num_iter2)
+                ncalls += 1
+                V2 = call_wannierise(ctx, rng, wd, cfg2, "restart", num_iter2, localise, extra2, sitesym=True, wit=wit)
+                res2 = judge(ctx, s, cfg2, V2, thresh, wit, "sitesym,iterated" if (num_iter2 > 0 or num_iter > 0) else "sitesym,restart")
+                res = {k: res[k] + res2[k] for k in res}
+                ctx.count("sitesym_calls_judged")
+                ctx.count("sitesym_calls_judged_with_window_oracles")
+        except IrrepsIncompatibleError:
+            ctx.count("sitesym_windows_incompatible_with_the_projections(documented error)")
+    seen = ctx.counters.get("mwindow_calls", 0) - calls0
+    if seen == 2 * len(kptirr) * ncalls:
+        ctx.count("cases_where_mwindow_saw_2_calls_per_kpoint")
+    else:
+        ctx.count("cases_where_mwindow_saw_unexpected_number_of_calls")
+    count_options(ctx, extra)
+    if exact_edges(s, cfg):
+        ctx.count("cases_with_a_window_edge_exactly_on_an_eigenvalue")
+    if ncalls and (res["nfroz"] > 0 or res["nexcl"] > 0 or NW < s.NB):
+        ctx.nontrivial(("sitesym", init, localise, min(num_iter, 3), res["nfroz"] > 0, res["nexcl"] > 0, res["cut"] > 0,
+                        irreducible, "dict" if isinstance(cfg["frozen_states"], dict) else len(cfg["frozen_states"])))
+    ctx.sample(witness(cfg, init, num_iter))
 
 
 # ----------------------------------------------------------------------------- one case
 def case(ctx, rng, idx, state):
+    if idx % 30 == 17:
+        return case_direct(ctx, rng, idx, state)
+    if state["real"] is not None and state["sym"] is not None and idx % 10 == 1:
+        return case_sitesym(ctx, rng, idx, state)
+    tmp = tempfile.mkdtemp(dir=os.path.join(env.WORK, "c24"))
+    try:
+        return case_main(ctx, rng, idx, state, tmp)
+    finally:
+        shutil.rmtree(tmp, ignore_errors=True)
+
+
+def case_main(ctx, rng, idx, state, tmp):
     import warnings
+    from wannierberri.w90files.wandata import WannierData
+    from wannierberri.w90files.chk import CheckPoint
     thresh = state["thresh"]
     thorough = ctx.thorough
     NB = int(rng.integers(1, 11 if thorough else 8))
     if rng.random() < 0.85:
         NB = max(NB, 2)
+    if thorough and rng.random() < 0.03:
+        NB = int(rng.integers(11, 17))
     grids = gen_w90.MP_GRIDS if thorough else gen_w90.MP_GRIDS[:8]
     mp_grid = grids[int(rng.integers(len(grids)))]
-    degen = ["none", "exact", "near", "near", "resolved", "chain", "mixed"][int(rng.integers(7))]
+    big = (idx % 75 == 37)
+    if big:
+        mp_grid = BIG_GRIDS[int(rng.integers(len(BIG_GRIDS) if thorough else 2))]
+        NB = min(NB, 5)
+    elif rng.random() < 0.06:
+        mp_grid = SMALL_GRIDS[int(rng.integers(len(SMALL_GRIDS)))]
+    degen = ["none", "exact", "near", "near", "resolved", "chain", "mixed", "exact4", "near4", "near4"][int(rng.integers(10))]
+    copies = None
+    if degen in ("exact4", "near4"):
+        degen, copies = degen[:-1], (4 if NB >= 4 else None)
+    bandwidth = float(rng.choice([1.0] * 7 + [0.15, 0.15, 4.0]))
     reference = (idx % 8 == 0)  # init=amn, num_iter=0, nothing frozen: starting gauge has a closed form
-    real = thorough and state["real"] is not None and idx % 25 == 7
+    real = state["real"] is not None and idx % 25 == 7
     if real:
-        import copy
         s = copy.copy(state["real"])
         NB, mp_grid = s.NB, s.mp_grid
         ctx.count("cases_on_bundled_diamond_data")
     else:
+        nb_more = int(rng.integers(1, 4)) if rng.random() < 0.25 else 0
         try:
-            s = gen_w90.synthetic_bands(rng, mp_grid=mp_grid, NB=NB, degen=degen)
+            s = gen_w90.synthetic_bands(rng, mp_grid=mp_grid, NB=NB + nb_more, degen=degen, copies=copies, bandwidth=bandwidth)
         except RuntimeError as e:
             if "bk vectors" in str(e) or "neighbour" in str(e) or "shell" in str(e):
                 raise harness.Skip("b-vector search failed for the lattice (not this property)")
             raise
+        if nb_more:
+            lo = int(rng.integers(0, nb_more + 1))
+            truncate_bands(s, lo, lo + NB)
     if s.min_tie_distance(thresh) < THRESH_GUARD:
         raise harness.Skip("tie: a gap within 1e-7 of the degeneracy threshold")
+    # ---- history of the object before the call
+    hist = ["fresh"] * 10 + ["npz"] * 3 + ["select"] * 3 + ["deepcopy"]
+    hist = hist[int(rng.integers(len(hist)))]
+    if hist == "select" and s.NB < 2:
+        hist = "fresh"
+    j = s  # what the oracle looks at
+    if hist == "select":
+        sel_form, sel_kw, sel = gen_select(rng, s, thresh)
+        j = band_view(s, sel)
+        if j.min_tie_distance(thresh) < THRESH_GUARD:
+            raise harness.Skip("tie: a gap within 1e-7 of the degeneracy threshold (after select_bands)")
     init = ["amn", "random", "restart"][int(rng.integers(3))]
     if reference:
         init = "amn"
@@ -386,68 +920,155 @@ def case(ctx, rng, idx, state):
     nw_fixed = None
     if real and first_init == "amn":
         nw_fixed = int(rng.integers(1, s.amn_full.shape[2] + 1))  # projections come from the file
-    cfg = gen_config(rng, s, thresh, NW=nw_fixed, thorough=thorough, no_frozen=reference)
+    cut_bias = 0.7 if copies == 4 else 0.3  # 4-fold multiplets: put the upper frozen edge inside them more often
+    cfg = gen_config(rng, j, thresh, NW=nw_fixed, thorough=thorough, no_frozen=reference, cut_bias=cut_bias)
     NW = cfg["NW"]
     if real and NW > s.amn_full.shape[2]:
         s.amn, s.amn_kind = None, "none"
     else:
-        s.set_amn(rng, NW, noise=float(rng.choice([0.0, 0.05, 0.3])))
+        set_amn(s, rng, NW, noise=float(rng.choice([0.0, 0.05, 0.3])))
+        if rng.random() < 0.08:
+            make_rank_deficient(s, rng)
+            ctx.count("cases_with_exactly_rank_deficient_projections")
+    if j is not s:
+        j.amn = None if s.amn is None else s.amn[:, sel, :]
+        j.amn_kind = s.amn_kind
     itmax = 200 if thorough else 40
+    if big:
+        itmax = 8
     num_iter = int(rng.choice([0, 1, 2, int(rng.integers(3, 12)), int(rng.integers(3, itmax + 1))]))
     if reference:
         num_iter = 0
     localise = bool(rng.random() < 0.6)
-    extra = dict(mix_ratio_z=float(rng.choice([1.0, 0.5, 0.8])))
-    if rng.random() < 0.5:
-        extra["conv_tol"] = 0.0  # never "converged": run all iterations
-    if rng.random() < 0.3:
-        extra["symmetrize_Z"] = False
-    if rng.random() < 0.2:
-        extra["wcc_start_red"] = rng.uniform(-0.5, 0.5, (NW, 3))
+    extra = gen_options(rng, NW, reference, thorough, num_iter)
     with_chk = bool(rng.random() < 0.4)
     with_amn = not (first_init == "random" and rng.random() < 0.5) and s.amn is not None
-    wd = s.wandata(with_chk=with_chk, with_amn=with_amn)
+    post = None if (reference or rng.random() < 0.75) else ["savechk", "to_npz"][int(rng.integers(2))]
+    wd = s.wandata(with_chk=with_chk, with_amn=with_amn, seedname=os.path.join(tmp, "verif-synthetic"))
+    if with_amn and rng.random() < 0.08:
+        wd.amn.positions = rng.uniform(-0.5, 0.5, (NW, 3))  # documented source of the starting centres for init='amn'
+        ctx.count("option_amn.positions")
+    if hist == "npz":
+        wd.to_npz(os.path.join(tmp, "before"))
+        wd = WannierData.from_npz(os.path.join(tmp, "before"))
+        ctx.count("history_npz_round_trip_before")
+    elif hist == "deepcopy":
+        wd = copy.deepcopy(wd)
+        ctx.count("history_deepcopy_before")
+    elif hist == "select":
+        got = wd.select_bands(**sel_kw)
+        ctx.count("history_select_bands_before")
+        ctx.count(f"history_select_bands_{sel_form}")
+        ctx.ev()
+        if [int(x) for x in got] != [int(x) for x in sel]:
+            ctx.violation("WannierData.select_bands:selected_set", f"select_bands({sel_kw}) kept {list(got)}, expected {sel.tolist()}",
+                          dict(E=s.E, kw=sel_kw))
+            return
 
-    def witness(cfg_, init_, n_iter):
-        return dict(NB=NB, NW=NW, mp_grid=mp_grid, degen=s.degen, amn=s.amn_kind, init=init_, num_iter=n_iter,
-                    localise=localise, extra={k: v for k, v in extra.items() if k != "wcc_start_red"},
+    def witness(cfg_, init_, n_iter, extra_=extra):
+        return dict(NB=j.NB, NW=cfg_["NW"], mp_grid=mp_grid, degen=s.degen, amn=getattr(s, "amn_kind", None), init=init_, num_iter=n_iter,
+                    localise=localise, extra=plain(extra_),
                     froz=(cfg_["froz_min"], cfg_["froz_max"]), outer=(cfg_["outer_min"], cfg_["outer_max"]),
-                    frozen_states=cfg_["frozen_states"], with_chk=with_chk, with_amn=with_amn)
+                    frozen_states=cfg_["frozen_states"], with_chk=with_chk, with_amn=with_amn, history=hist,
+                    select_bands=(sel_kw if hist == "select" else None), post=post)
 
-    state["case"] = dict(idx=idx, NB=NB, NW=NW, mp_grid=mp_grid)
+    state["case"] = dict(idx=idx, NB=j.NB, NW=NW, mp_grid=mp_grid)
     calls0 = ctx.counters.get("mwindow_calls", 0)
+    ncalls = 0
+    second = None
     with warnings.catch_warnings():
         warnings.simplefilter("ignore")
-        V = call_wannierise(rng, wd, cfg, first_init, num_iter, localise, extra)
+        if init == "restart":
+            second = "restart"
+        elif not reference and rng.random() < 0.15:
+            second = "amn" if (with_amn and rng.random() < 0.5) else "random"
+        extra1 = dict(extra)
+        if post == "savechk" and second is None:
+            extra1["savechk"] = True
         wit = witness(cfg, first_init, num_iter)
-        res = judge(ctx, s, cfg, V, thresh, wit, first_init)
+        ncalls += 1
+        V = call_wannierise(ctx, rng, wd, cfg, first_init, num_iter, localise, extra1, wit=wit)
+        res = judge(ctx, j, cfg, V, thresh, wit, first_init)
         ctx.count(f"init_{first_init}")
         if reference:
-            judge_initial_gauge(ctx, s, cfg, V, thresh, wit)
+            judge_initial_gauge(ctx, j, cfg, V, thresh, wit)
         cfg_last = cfg
-        if init == "restart":
-            # a second call on the result, with the same or with new (valid) windows
+        if second is not None:
+            # a second call on the same object: continue ('restart', same or new windows), or start again from the
+            # projections / from random matrices with other windows (and, for 'random', another number of Wannier functions)
+            V_first, V_first_copy = V, copy.deepcopy(V)
             cfg2 = cfg
-            if rng.random() < 0.5:
+            if second == "restart":
+                if rng.random() < 0.5:
+                    try:
+                        cfg2 = gen_config(rng, j, thresh, NW=NW, thorough=thorough)
+                        ctx.count("restart_with_new_windows")
+                    except harness.Skip:
+                        cfg2 = cfg
+            else:
                 try:
-                    cfg2 = gen_config(rng, s, thresh, NW=NW, thorough=thorough)
-                    ctx.count("restart_with_new_windows")
+                    cfg2 = gen_config(rng, j, thresh, NW=(NW if second == "amn" else None), thorough=thorough)
                 except harness.Skip:
                     cfg2 = cfg
+                ctx.count(f"object_reused_with_init_{second}")
+                if cfg2["NW"] != NW:
+                    ctx.count("object_reused_with_another_num_wann")
             num_iter2 = int(rng.choice([0, 1, int(rng.integers(2, 15))]))
-            extra2 = {k: v for k, v in extra.items() if k != "wcc_start_red"}
-            V2 = call_wannierise(rng, wd, cfg2, "restart", num_iter2, localise, extra2)
-            wit = witness(cfg2, "restart", num_iter2)
+            extra2 = plain(extra)
+            if post == "savechk":
+                extra2["savechk"] = True
+            wit = witness(cfg2, second, num_iter2, extra2)
             wit["first_call"] = dict(init=first_init, num_iter=num_iter, froz=(cfg["froz_min"], cfg["froz_max"]),
-                                     outer=(cfg["outer_min"], cfg["outer_max"]), frozen_states=cfg["frozen_states"])
-            res2 = judge(ctx, s, cfg2, V2, thresh, wit, "restart")
+                                     outer=(cfg["outer_min"], cfg["outer_max"]), frozen_states=cfg["frozen_states"], NW=NW)
+            ncalls += 1
+            V2 = call_wannierise(ctx, rng, wd, cfg2, second, num_iter2, localise, extra2, wit=wit)
+            res2 = judge(ctx, j, cfg2, V2, thresh, wit, "restart" if second == "restart" else f"second_call,{second}")
             res = {k: res[k] + res2[k] for k in res}
-            ctx.count("init_restart")
+            ctx.count("init_restart" if second == "restart" else f"init_{second}")
             cfg_last = cfg2
+            ctx.ev()
+            ctx.count("earlier_result_rechecked_after_second_call")
+            if max_diff(V_first, V_first_copy) != 0.0:
+                ctx.violation("wannierise:gauge_returned_earlier_changed_by_a_later_call",
+                              f"the v_matrix obtained from the first call changed by {max_diff(V_first, V_first_copy)} during the second", wit)
+            V = V2
+        # ---- the checkpoint written to disk, read back and continued on another object
+        if post is not None:
+            V_mem = copy.deepcopy(V)
+            if post == "savechk":
+                chk = CheckPoint.from_npz(wd.seedname + ".chk.npz")
+                wd3 = s.wandata(with_chk=False, with_amn=False, seedname=os.path.join(tmp, "reloaded"))
+                if hist == "select":
+                    wd3.select_bands(**sel_kw)
+                wd3.set_file("chk", chk, allow_selected_bands=True)
+            else:
+                wd.to_npz(os.path.join(tmp, "after"))
+                wd3 = WannierData.from_npz(os.path.join(tmp, "after"))
+            ctx.count(f"history_{post}_reloaded")
+            Vl = wd3.chk.v_matrix if wd3.has_file("chk") and wd3.chk.wannierised else None
+            ctx.ev()
+            if max_diff(Vl, V_mem) != 0.0:
+                ctx.violation(f"wannierise[{post}]:reloaded_gauge_differs", f"v_matrix read back differs from the one in memory by "
+                              f"{max_diff(Vl, V_mem)}", witness(cfg_last, "reload", 0))
+            else:
+                cfg3 = cfg_last
+                if rng.random() < 0.5:
+                    try:
+                        cfg3 = gen_config(rng, j, thresh, NW=cfg_last["NW"], thorough=thorough)
+                    except harness.Skip:
+                        cfg3 = cfg_last
+                num_iter3 = int(rng.choice([0, 1, int(rng.integers(2, 10))]))
+                wit = witness(cfg3, "restart", num_iter3, {})
+                wit["reloaded_from"] = post
+                ncalls += 1
+                V3 = call_wannierise(ctx, rng, wd3, cfg3, "restart", num_iter3, localise, {}, wit=wit)
+                res3 = judge(ctx, j, cfg3, V3, thresh, wit, f"restart_after_{post}")
+                res = {k: res[k] + res3[k] for k in res}
+                ctx.count("restart_on_reloaded_checkpoint")
+        check_inputs_unchanged(ctx, wd, j, witness(cfg_last, init, num_iter))
     # the monitor must have seen 2 calls per k-point and wannierise call
-    ncalls = ctx.counters.get("mwindow_calls", 0) - calls0
-    expected = 2 * s.NK * (2 if init == "restart" else 1)
-    if ncalls != expected:
+    seen = ctx.counters.get("mwindow_calls", 0) - calls0
+    if seen != 2 * s.NK * ncalls:
         ctx.count("cases_where_mwindow_saw_unexpected_number_of_calls")  # not a refutation of the property by itself
     else:
         ctx.count("cases_where_mwindow_saw_2_calls_per_kpoint")
@@ -455,22 +1076,46 @@ def case(ctx, rng, idx, state):
         raise RuntimeError(f"wannierise passed thresh={state.get('thresh_seen')} to select_window_degen; oracle assumes {thresh}")
 
     ctx.count("localise_on" if localise else "localise_off")
+    count_options(ctx, extra)
     if num_iter == 0:
         ctx.count("num_iter_0")
-    if isinstance(cfg["frozen_states"], dict):
+    fs = cfg["frozen_states"]
+    if isinstance(fs, dict) and len(fs):
         ctx.count("explicit_frozen_states_dict")
-    elif len(cfg["frozen_states"]):
+    elif len(fs):
         ctx.count("explicit_frozen_states_list")
+        if len(set(int(x) for x in fs)) > 2:
+            ctx.count("explicit_frozen_states_more_than_two")
+    elif cfg["pass_empty"]:
+        ctx.count("explicit_frozen_states_empty_container")
+    if len(fs) and cfg["fs_form"] != "python":
+        ctx.count(f"explicit_frozen_states_{cfg['fs_form']}_integers")
+    if exact_edges(j, cfg) or exact_edges(j, cfg_last):
+        ctx.count("cases_with_a_window_edge_exactly_on_an_eigenvalue")
+    for c in (cfg, cfg_last):
+        if any(np.isfinite(a) and a == b and np.any(j.E == a) for a, b in ((c["froz_min"], c["outer_min"]), (c["froz_max"], c["outer_max"]))):
+            ctx.count("cases_with_both_windows_sharing_an_edge_on_an_eigenvalue")
+            break
+    if np.isfinite(cfg["froz_min"]) and np.isfinite(cfg["froz_max"]) and cfg["froz_min"] > cfg["froz_max"]:
+        ctx.count("cases_with_finite_inverted_frozen_window")
+    if s.NK <= 2:
+        ctx.count("cases_with_1_or_2_kpoints")
+    if s.NK >= 100:
+        ctx.count("cases_with_100+_kpoints")
+    if getattr(s, "band_slice", None) is not None:
+        ctx.count("cases_with_bands_cut_out_of_a_larger_model")
+    if copies == 4:
+        ctx.count("cases_with_4_fold_multiplets")
     if res["cut"]:
         ctx.count("cases_with_cut_multiplet")
-    if NW == NB:
+    if NW == j.NB:
         ctx.count("cases_NW=NB")
-    nout_max = int(((s.E >= cfg_last["outer_min"]) & (s.E <= cfg_last["outer_max"])).sum(axis=1).max())
-    nontrivial = (NW < nout_max) or res["nfroz"] > 0
+    nout_max = int(definitely_in(j.E, cfg_last["outer_min"], cfg_last["outer_max"]).sum(axis=1).max())
+    nontrivial = (cfg_last["NW"] < nout_max) or res["nfroz"] > 0
     if nontrivial:
-        ctx.nontrivial((NB, NW, mp_grid, s.degen["kind"], s.degen["split"], init, localise, min(num_iter, 3),
+        ctx.nontrivial((j.NB, NW, mp_grid, s.degen["kind"], s.degen["split"], init, localise, min(num_iter, 3),
                         res["nfroz"] > 0, res["nexcl"] > 0, res["cut"] > 0,
-                        "dict" if isinstance(cfg["frozen_states"], dict) else len(cfg["frozen_states"])))
+                        "dict" if isinstance(cfg["frozen_states"], dict) else len(cfg["frozen_states"]), hist, second, post))
     else:
         ctx.count("cases_trivial(no disentanglement)")
     ctx.sample(wit)
@@ -479,26 +1124,42 @@ def case(ctx, rng, idx, state):
 if __name__ == "__main__":
     harness.main(
         PROP, "exploration", case, setup_fn=setup,
-        tiers=dict(quick=dict(cases=300, shards=8, time=900), thorough=dict(cases=3200, shards=16, time=3000)),
-        rule="synthetic W90 data (random TB model, NB 1..7 (thorough 10), Gamma-centred meshes (2,2,2)...(5,2,2) in random "
-             "k order, periodic-gauge MMN from BKVectors.from_kpoints, 4 kinds of trial projections, exact/near/resolved/"
-             "chain/mixed degeneracies), NW 1..#bands in the outer window, frozen/outer windows at random positions incl. "
-             "+-inf and edges placed inside multiplets, explicit frozen_states (list / per-k dict), init amn/random/restart "
-             "(restart = second call on the result, same or new windows), num_iter 0..40 (thorough 200), localise on/off, "
-             "mix_ratio_z, conv_tol, with/without a pre-set bare CheckPoint; parallel/sitesym off; every 8th case is a "
-             "reference case (init amn, 0 iterations, nothing frozen) compared with the Loewdin projection; thorough: "
-             "every 25th case on the bundled diamond data (8 k-points, 10 bands, symmetry-degenerate multiplets).  Non-trivial = NW < "
-             "number of bands in the outer window at some k or >=1 frozen band; distinct by (NB, NW, mesh, degeneracy kind/"
-             "split, init, localise, iteration class, frozen/excluded/cut flags, explicit-frozen kind)",
+        tiers=dict(quick=dict(cases=360, shards=8, time=900), thorough=dict(cases=3200, shards=16, time=3000)),
+        rule="synthetic W90 data (random TB model, NB 1..7 (thorough 10, rarely 16), Gamma-centred meshes (2,2,2)...(5,2,2) in random "
+             "k order, also 1-2 and 100-144 k-points, periodic-gauge MMN from BKVectors.from_kpoints, bands optionally cut out of "
+             "a larger model, 4 kinds of trial projections + exactly rank-deficient ones, exact/near/resolved/chain/mixed/4-fold "
+             "degeneracies, band widths 0.15-4), NW 1..#bands in the outer window, frozen/outer windows at random positions incl. "
+             "+-inf, edges placed inside multiplets and edges bit-identical to an eigenvalue, explicit frozen_states (list / per-k "
+             "dict; python / numpy integers, duplicates, empty), init amn/random/restart (restart = second call on the result, same "
+             "or new windows; second call also with amn/random and another num_wann), num_iter 0..40 (thorough 200), localise "
+             "on/off, mix_ratio_z, mix_ratio_u, conv_tol, num_iter_converge, print options, irreducible, default parallel, "
+             "with/without a pre-set bare CheckPoint; object fresh / npz round trip / deep copy / select_bands before the call; "
+             "checkpoint saved (savechk / to_npz), reloaded and restarted; every 8th case is a reference case (init amn, "
+             "0 iterations, nothing frozen) compared with the Loewdin projection; every 25th case on the bundled diamond data "
+             "(8 k-points, 10 bands, symmetry-degenerate multiplets); every 10th with sitesym=True on these data; every 30th "
+             "calls orthogonalize / get_max_eig directly.  Non-trivial = NW < number of bands in the outer window at some k or "
+             ">=1 frozen band; distinct by (NB, NW, mesh, degeneracy kind/split, init, localise, iteration class, "
+             "frozen/excluded/cut flags, explicit-frozen kind, history, second call, reload)",
         assumptions=["degeneracy threshold of the oracle = default `thresh` of select_window_degen (1e-2); wannierise passes none "
                      "(verified in situ on every call)",
-                     "inputs are valid whichever way cut multiplets are resolved: #bands in outer window >= NW >= #bands in "
-                     "frozen window + explicit frozen states at every k; frozen window inside the outer window",
-                     "tie guards: no eigenvalue within 1e-6 of a window edge, no gap within 1e-7 of the threshold",
-                     "orthonormality 1e-9, frozen weight 1e-8, excluded rows 1e-9 (absolute, natural scale 1)"],
+                     "inputs are valid whichever way cut multiplets and bands exactly on an edge are resolved: #bands in outer "
+                     "window >= NW >= #bands in frozen window + explicit frozen states at every k; frozen window inside the outer window",
+                     "tie guards: no eigenvalue within 1e-6 of a window edge unless bit-identical to it (then the band may count as "
+                     "inside or outside, like a cut multiplet), no gap within 1e-7 of the threshold",
+                     "sitesym: windows incompatible with the projections raise the documented IrrepsIncompatibleError (counted); "
+                     "explicit frozen states are counted with their whole multiplets",
+                     "orthonormality 1e-9, frozen weight 1e-8, excluded rows 1e-9 (absolute, natural scale 1); reloaded gauge bit-identical"],
         required_counters=("mwindow_calls", "mwindow_calls_include_degen", "mwindow_calls_exclude_degen",
                            "bands_judged_frozen", "bands_judged_outside_outer", "init_amn", "init_random", "init_restart",
                            "localise_on", "localise_off", "cases_with_cut_multiplet", "mwindow_cut_multiplets_seen",
-                           "reference_gauge_kpoints_checked"),
+                           "reference_gauge_kpoints_checked",
+                           "sitesym_calls_judged", "direct_orthogonalize_calls", "direct_get_max_eig_calls",
+                           "cases_with_a_window_edge_exactly_on_an_eigenvalue", "cases_with_1_or_2_kpoints", "cases_with_100+_kpoints",
+                           "cases_with_bands_cut_out_of_a_larger_model", "cases_with_4_fold_multiplets",
+                           "cases_with_exactly_rank_deficient_projections", "history_npz_round_trip_before",
+                           "history_select_bands_before", "restart_on_reloaded_checkpoint", "earlier_result_rechecked_after_second_call",
+                           "object_reused_with_another_num_wann", "option_mix_ratio_u", "inputs_unchanged_checked",
+                           "cases_on_bundled_diamond_data", "mwindow_upper_edge_cuts_multiplet_with_3+_bands_inside",
+                           "option_parallel_left_at_default(serial fall-back)", "history_select_bands_before"),
         min_nontrivial=20,
     )
